@@ -1350,3 +1350,48 @@ def m_iter_for_each(ex, callee, args):
     for x in _drain(ex, get_iter(args[0])):
         ex.call_closure(args[1], [x])
     return UNIT
+
+
+@model(r'^<(\[.*\]|Vec<.*>) as (std::ops::)?Index(Mut)?<(std::ops::)?(Range|RangeFrom|RangeTo|RangeInclusive|RangeFull|RangeToInclusive)<usize>>>::index(_mut)?$|'
+       r'^<(\[.*\]|Vec<.*>) as (std::ops::)?Index(Mut)?<(std::ops::)?RangeFull>>::index(_mut)?$')
+def m_slice_range(ex, callee, args):
+    v = vec_of(args[0])
+    n = len(v.items)
+    rng = args[1]
+    kind = re.search(r'(RangeFrom|RangeToInclusive|RangeTo|RangeInclusive|RangeFull|Range)', callee).group(1)
+
+    def conc(x, what):
+        return ex.concretize(x, candidates=list(range(n + 2)), what=what)
+    if kind == 'RangeFull':
+        a, b = 0, n
+    elif kind == 'Range':
+        a, b = conc(rng.items[0], 'range start'), conc(rng.items[1], 'range end')
+    elif kind == 'RangeFrom':
+        a, b = conc(rng.items[0], 'range start'), n
+    elif kind == 'RangeTo':
+        a, b = 0, conc(rng.items[0], 'range end')
+    elif kind == 'RangeToInclusive':
+        a, b = 0, conc(rng.items[0], 'range end') + 1
+    else:
+        a, b = conc(rng.items[0], 'range start'), conc(rng.items[1], 'range end') + 1
+    site = ex.frames[-1].fn.name + ' bb%s' % ex.frames[-1].bb
+    if a > b:
+        raise PanicEx(site, 'slice index starts at %d but ends at %d' % (a, b))
+    if b > n:
+        raise PanicEx(site, 'range end index %d out of range for slice of length %d' % (b, n))
+    return Ref(Cont([VecV(v.items[a:b])]), 0)
+
+
+@model(r'^core::slice::<impl \[.*\]>::to_vec$|^<\[.*\] as ToOwned>::to_owned$')
+def m_to_vec(ex, callee, args):
+    return VecV([deep_clone(x) if not isinstance(x, SymEnum) else x for x in vec_of(args[0]).items])
+
+
+@model(r'^core::slice::<impl \[.*\]>::(split_first|split_last)$')
+def m_split_first(ex, callee, args):
+    v = vec_of(args[0])
+    if not v.items:
+        return none()
+    if callee.endswith('split_first'):
+        return some(Tup([Ref(v, 0), Ref(Cont([VecV(v.items[1:])]), 0)]))
+    return some(Tup([Ref(v, len(v.items) - 1), Ref(Cont([VecV(v.items[:-1])]), 0)]))
